@@ -129,56 +129,82 @@ func checkC03(c *Ctx) {
 			}
 		}
 	}
-	// directory Size updates
+	// directory Size at the successful exits, along every path: old Size (kept only
+	// when a table exists) + dwLength + pad length of that PaddingBytes call
 	sizeField := "debug/pe.DataDirectory.Size"
-	var padAdd, lenAdd, lenSet int
-	for _, st := range storesTo(fn, sizeField) {
-		if ir.RootOf(st.Addr) != ssa.Value(recv) {
-			continue
-		}
-		a := affineOf(st.Val, 0)
-		var olds, lens, pads int
-		other := false
-		for sym, cf := range a.T {
-			v := a.Sym[sym]
-			switch {
-			case cf == 1 && strings.HasSuffix(sym, ".Datadir.Size"):
-				olds++
-			case cf == 1 && v != nil && isLenLoad(v):
-				lens++
-			case cf == 1 && isExtractOf(v, pad, 1):
-				pads++
-			default:
-				other = true
+	vaField := "debug/pe.DataDirectory.VirtualAddress"
+	paths, complete := successPaths(fn, 256)
+	if !complete {
+		c.R.Infof("M2.conserve", fname, "table+directory-paths", c.Pos(fn.Pos()), "not decided for this shape: the function has loops or too many paths for the path evaluation of the directory Size")
+	}
+	for _, path := range paths {
+		cur := symAffine("OLD", nil)
+		newTable := false
+		touched := false
+		for _, blk := range path {
+			for _, in := range blk.Instrs {
+				st, ok := in.(*ssa.Store)
+				if !ok || ir.RootOf(st.Addr) != ssa.Value(recv) {
+					continue
+				}
+				switch ir.FieldID(st.Addr) {
+				case vaField:
+					newTable = true
+				case sizeField:
+					touched = true
+					a := affineOf(st.Val, 0)
+					next := newAffine()
+					next.K = a.K
+					for sym, cf := range a.T {
+						if strings.HasSuffix(sym, ".Datadir.Size") {
+							next = next.add(cur.scale(cf), 1)
+						} else {
+							next = next.add(symAffine(sym, a.Sym[sym]).scale(cf), 1)
+						}
+					}
+					cur = next
+				}
 			}
 		}
-		switch {
-		case other || a.K != 0:
-			bad = append(bad, "directory Size is set to "+a.String())
-		case olds == 1 && pads == 1 && lens == 0:
-			padAdd++
-		case olds == 1 && lens == 1 && pads == 0:
-			lenAdd++
-		case olds == 0 && lens == 1 && pads == 0:
-			lenSet++
-		case olds == 1 && lens == 1 && pads == 1:
-			lenAdd++
-			padAdd++
-		default:
-			bad = append(bad, "directory Size is set to "+a.String())
+		var olds, lens, pads int64
+		other := ""
+		for sym, cf := range cur.T {
+			v := cur.Sym[sym]
+			switch {
+			case sym == "OLD":
+				olds = cf
+			case v != nil && isLenLoad(v):
+				lens += cf
+			case isExtractOf(v, pad, 1):
+				pads += cf
+			default:
+				other = sym
+			}
 		}
-	}
-	if padAdd != 1 {
-		bad = append(bad, fmt.Sprintf("the directory Size grows by the pad length %d times (want once, by result #1 of the same PaddingBytes call)", padAdd))
-	}
-	if lenAdd != 1 || lenSet != 1 {
-		bad = append(bad, "the directory Size is not (old Size + dwLength) for an existing table and dwLength for a new one")
+		wantOld := int64(1)
+		if newTable {
+			wantOld = 0
+		}
+		switch {
+		case !touched:
+			bad = append(bad, "the directory Size is not updated on a successful path")
+		case other != "" || cur.K != 0:
+			bad = append(bad, "on a successful path the directory Size becomes "+cur.String()+" (an unexpected term)")
+		case lens != 1 || pads != 1 || olds != wantOld:
+			kind := "an existing table"
+			if newTable {
+				kind = "a new table"
+			}
+			bad = append(bad, fmt.Sprintf("for %s the directory Size becomes %s, want %d*old Size + dwLength + pad length (result #1 of the same PaddingBytes call)", kind, cur.String(), wantOld))
+		}
+		if len(bad) > 0 {
+			break
+		}
 	}
 	c.R.Check(len(bad) == 0, "M2.conserve", fname, "table+directory", c.Pos(fn.Pos()), "certificate table and directory entry grow by the same dwLength + pad, pad from one PaddingBytes(dwLength, 8) call, entry before pad", strings.Join(bad, "; "))
 
 	// ---- M3: a new table starts at the padded end of file; an existing table keeps its address
 	bad = nil
-	vaField := "debug/pe.DataDirectory.VirtualAddress"
 	vas := storesTo(fn, vaField)
 	if len(vas) != 1 {
 		bad = append(bad, fmt.Sprintf("%d assignments of the table address", len(vas)))
@@ -212,10 +238,13 @@ func checkC03(c *Ctx) {
 		}
 	}
 	// p.length in Parse is the padded file size
+	var pv *deepView
 	if pf := c.Fn("M3.address", "authenticode.Parse"); pf != nil {
+		pv = c.deepViewOf(pf, 3)
+		pv.stopAt = map[string]bool{acPkg + ".PaddingBytes": true}
 		okLen := false
-		for _, st := range storesTo(pf, acPkg+".PECOFFBinary.length") {
-			a := affineOf(st.Val, 0)
+		for _, di := range pv.storesToField(acPkg + ".PECOFFBinary.length") {
+			a := pv.affine(di.i.(*ssa.Store).Val, di.fr, nil, 0)
 			var hasRest, hasPad bool
 			for sym := range a.T {
 				if strings.HasPrefix(sym, "len(") {
@@ -236,85 +265,111 @@ func checkC03(c *Ctx) {
 	c.R.Check(len(bad) == 0, "M3.address", fname, "table-address", c.Pos(fn.Pos()), "a new certificate table starts at the 8-byte padded end of the file; an existing table keeps its address", strings.Join(bad, "; "))
 
 	// ---- the directory entry that is emitted is the updated one
-	okDir := false
-	for _, st := range storesTo(fn, acPkg+".PECOFFBinary.optDataDir") {
-		sl := c.Slicer().Slice(st.Val)
+	av := c.deepViewOf(fn, 2)
+	derived, encoded := false, false
+	for _, di := range av.storesToField(acPkg + ".PECOFFBinary.optDataDir") {
+		sl := av.sliceDeep(di.i.(*ssa.Store).Val, di.fr)
+		if ir.HasField(sl, acPkg+".PECOFFBinary.Datadir") {
+			derived = true
+		}
 		for v := range sl {
-			if call, ok := v.(*ssa.Call); ok && ir.CallID(call) == "encoding/binary.Write" && byteOrderOf(call.Call.Args[1]) == "LE" {
+			call, ok := v.(*ssa.Call)
+			if !ok {
+				continue
+			}
+			if ir.CallID(call) == "encoding/binary.Write" && byteOrderOf(call.Call.Args[1]) == "LE" {
 				if ir.FieldID(ir.StripIface(call.Call.Args[2])) == acPkg+".PECOFFBinary.Datadir" {
-					okDir = true
+					encoded = true
+				}
+			}
+			// a helper that packs the two fields little endian at offsets 0 and 4
+			if callee := ir.Callee(call); callee != nil && c.P.InLib(callee) {
+				if pl, size, ok := c.packLeaves(callee, false); ok && size == 8 && len(pl) == 2 &&
+					pl[0].off == 0 && pl[0].width == 4 && pl[0].order == "LE" && strings.HasSuffix(pl[0].id, "DataDirectory.VirtualAddress") &&
+					pl[1].off == 4 && pl[1].width == 4 && pl[1].order == "LE" && strings.HasSuffix(pl[1].id, "DataDirectory.Size") {
+					encoded = true
 				}
 			}
 		}
 	}
-	c.R.Check(okDir, "M2.conserve", fname, "entry-reencoded", c.Pos(fn.Pos()), "the directory entry that will be emitted is the updated Datadir, little endian", "optDataDir is not rebuilt from p.Datadir after the update")
+	switch {
+	case !derived:
+		c.R.Violf("M2.conserve", fname, "entry-reencoded", c.Pos(fn.Pos()), "the directory entry that will be emitted is the updated Datadir, little endian", "optDataDir is not rebuilt from p.Datadir after the update")
+	case !encoded:
+		c.R.Infof("M2.conserve", fname, "entry-reencoded", c.Pos(fn.Pos()), "not decided for this shape: optDataDir derives from p.Datadir but the encoding is neither encoding/binary.Write(LittleEndian, &p.Datadir) nor a recognised 8-byte little-endian packing")
+	default:
+		c.R.Okf("M2.conserve", fname, "entry-reencoded", c.Pos(fn.Pos()), "the directory entry that will be emitted is the updated Datadir, little endian")
+	}
 
 	// ---- M4: reassembly order and contiguity
 	if op := c.Fn("M4.reassembly", "authenticode.(*PECOFFBinary).Open"); op != nil {
-		var mr *ssa.Call
-		instrsOf(op, func(i ssa.Instruction) {
-			if call, ok := i.(*ssa.Call); ok && ir.CallID(call) == "io.MultiReader" {
-				mr = call
-			}
-		})
+		ov := c.deepViewOf(op, 2)
 		var bad []string
-		if mr == nil {
-			bad = append(bad, "Open does not concatenate its parts with io.MultiReader")
+		// the reader Open returns, with nested io.MultiReader calls flattened
+		var flat func(v ssa.Value, fr *frame, idx map[ssa.Value]int64, depth int) ([]listItem, bool)
+		flat = func(v ssa.Value, fr *frame, idx map[ssa.Value]int64, depth int) ([]listItem, bool) {
+			var r dval
+			ov.under(listItem{idx: idx}, func() { r = ov.resolveConv(ir.StripIface(v), fr) })
+			call, ok := r.v.(*ssa.Call)
+			if !ok || ir.CallID(call) != "io.MultiReader" || depth > 4 {
+				return nil, false
+			}
+			var out []listItem
+			for _, it := range ov.list(call.Call.Args[0], r.fr) {
+				if it.opaque || it.loop {
+					return nil, false
+				}
+				if sub, ok := flat(it.v.v, it.v.fr, it.idx, depth+1); ok {
+					out = append(out, sub...)
+				} else {
+					out = append(out, it)
+				}
+			}
+			return out, true
+		}
+		var items []listItem
+		enumerable := false
+		if rets := ir.Returns(op); len(rets) == 1 && len(rets[0].Results) == 1 {
+			items, enumerable = flat(rets[0].Results[0], ov.root, nil, 0)
+		}
+		want := []string{"firstSection", "optDataDir", "lastSection", "padding", "certTable"}
+		if !enumerable {
+			c.R.Infof("M4.reassembly", name(op), "part-order", c.Pos(op.Pos()), "not decided for this shape: Open does not return an io.MultiReader over an enumerable list of parts")
 		} else {
-			elems, ok := variadicElems(mr.Call.Args[0])
-			want := []string{"firstSection", "optDataDir", "lastSection", "padding", "certTable"}
-			if !ok || len(elems) != len(want) {
-				bad = append(bad, fmt.Sprintf("%d parts, want %d", len(elems), len(want)))
-			} else {
-				ordered := make([]ssa.Value, len(elems))
-				for _, e := range elems {
-					for _, r := range *e.Referrers() {
-						if st, ok := r.(*ssa.Store); ok {
-							if ia, ok := st.Addr.(*ssa.IndexAddr); ok {
-								if n, isK := ir.ConstInt(ia.Index); isK && int(n) < len(ordered) {
-									ordered[n] = e
-								}
-							}
-						}
-					}
+			var got []string
+			known := true
+			for _, it := range items {
+				var o string
+				ov.under(it, func() { o = ov.fieldOrigin(it.v.v, it.v.fr, 0) })
+				if o == "" {
+					known = false
 				}
-				for k, e := range ordered {
-					if e == nil {
-						bad = append(bad, "part order not resolvable")
-						break
-					}
-					sl := c.Slicer().Slice(e)
-					for j, w := range want {
-						has := ir.HasField(sl, acPkg+".PECOFFBinary."+w)
-						if j == k && !has {
-							bad = append(bad, fmt.Sprintf("part %d is not %s", k+1, w))
-						}
-						if j != k && has {
-							bad = append(bad, fmt.Sprintf("part %d also derives from %s", k+1, w))
-						}
-					}
-				}
+				got = append(got, o[strings.LastIndex(o, ".")+1:])
+			}
+			switch {
+			case !known:
+				c.R.Infof("M4.reassembly", name(op), "part-order", c.Pos(op.Pos()), "not decided for this shape: a part is not derived from exactly one field of the image object ("+strings.Join(got, ", ")+")")
+			case strings.Join(got, ",") != strings.Join(want, ","):
+				bad = append(bad, "the parts are "+strings.Join(got, ", ")+"; want "+strings.Join(want, ", "))
 			}
 		}
 		// contiguity in Parse: first = [0,d), entry = [d,d+8), last starts at d+8
-		if pf := c.FnOpt("authenticode.Parse"); pf != nil {
+		if pv != nil {
 			rng := func(field string) (Affine, Affine, bool) {
-				for _, st := range storesTo(pf, acPkg+".PECOFFBinary."+field) {
-					if call, ok := resolveCell(st.Val).(*ssa.Call); ok {
-						if _, s, e, ok := c.sectionRange(call); ok {
-							return s, e, true
-						}
+				for _, di := range pv.storesToField(acPkg + ".PECOFFBinary." + field) {
+					if sr, ok := pv.sectionRangeOf(di.i.(*ssa.Store).Val, di.fr, nil); ok {
+						return sr.start, sr.end, true
 					}
 				}
 				return Affine{}, Affine{}, false
 			}
-			// evaluate with the phi kept symbolic (same symbol in all three)
+			// evaluated with the optional-header arm kept symbolic (same symbol in all three)
 			s1, e1, ok1 := rng("firstSection")
 			s2, e2, ok2 := rng("optDataDir")
 			s3, _, ok3 := rng("lastSection")
 			switch {
 			case !ok1 || !ok2 || !ok3:
-				bad = append(bad, "the three image parts are not section readers over the image")
+				c.R.Infof("M4.reassembly", name(op), "contiguity", c.Pos(op.Pos()), "not decided for this shape: the three image parts kept by Parse are not section readers the evaluator can resolve")
 			default:
 				if !s1.isConst() || s1.K != 0 {
 					bad = append(bad, "the first part does not start at offset 0")
@@ -406,4 +461,42 @@ func (c *Ctx) ruleOrderSignOnly() {
 		}
 	}
 	c.R.Check(ok, "M5.signed-digest", name(fn), "digest-source", c.Pos(fn.Pos()), "the signature commits to the SHA-256 of this image's hash content", det)
+}
+
+// successPaths enumerates the acyclic paths from entry to the returns that do
+// not return a non-nil error (complete=false if the function has a loop or
+// more than max paths).
+func successPaths(fn *ssa.Function, max int) (paths [][]*ssa.BasicBlock, complete bool) {
+	complete = true
+	if len(naturalLoops(fn)) > 0 {
+		return nil, false
+	}
+	var cur []*ssa.BasicBlock
+	var walk func(b *ssa.BasicBlock)
+	walk = func(b *ssa.BasicBlock) {
+		if len(paths) >= max {
+			complete = false
+			return
+		}
+		cur = append(cur, b)
+		defer func() { cur = cur[:len(cur)-1] }()
+		if len(b.Succs) == 0 {
+			if len(b.Instrs) > 0 {
+				if r, ok := b.Instrs[len(b.Instrs)-1].(*ssa.Return); ok {
+					if n := len(r.Results); n > 0 && isErrorType(r.Results[n-1].Type()) && !ir.IsNilConst(r.Results[n-1]) {
+						return
+					}
+					paths = append(paths, append([]*ssa.BasicBlock{}, cur...))
+				}
+			}
+			return
+		}
+		for _, s := range b.Succs {
+			walk(s)
+		}
+	}
+	if len(fn.Blocks) > 0 {
+		walk(fn.Blocks[0])
+	}
+	return paths, complete
 }
